@@ -39,14 +39,15 @@ const (
 	oBindA
 	oMergeB4 // {b:4}
 	oGetB
+	oMergeBig // {b:3} plus 130 filler keys (key a is NOT in the batch): beyond any size threshold of a batched merge path
 	numStoreOps
 )
 
-var storeOpNames = [...]string{"Set(a,1)", "Set(b,2)", "Set(a,2)", "Get(a)", "Has(b)", "Delete(a)", "Len", "Keys", "GetAll", "Merge{a:3,b:3}", "Clear", "GetInt(a)", "GetSlice(b)", "Bind(a)", "Merge{b:4}", "Get(b)"}
+var storeOpNames = [...]string{"Set(a,1)", "Set(b,2)", "Set(a,2)", "Get(a)", "Has(b)", "Delete(a)", "Len", "Keys", "GetAll", "Merge{a:3,b:3}", "Clear", "GetInt(a)", "GetSlice(b)", "Bind(a)", "Merge{b:4}", "Get(b)", "Merge{b:3,+130 keys}"}
 
 func isMutator(o int) bool {
 	switch o {
-	case oSetA1, oSetB2, oSetA2, oDelA, oMerge, oClear, oMergeB4:
+	case oSetA1, oSetB2, oSetA2, oDelA, oMerge, oClear, oMergeB4, oMergeBig:
 		return true
 	}
 	return false
@@ -104,6 +105,9 @@ func kvStep(st kvState, op int, out kvOut) (bool, kvState) {
 		return true, st
 	case oMerge:
 		return true, kvState{3, 3}
+	case oMergeBig:
+		st[1] = 3 // the big batch does not contain key a
+		return true, st
 	case oMergeB4:
 		st[1] = 4
 		return true, st
@@ -190,6 +194,12 @@ func doStoreOp(s *flyt.SharedStore, op int) kvOut {
 		s.Merge(map[string]any{"a": 3, "b": 3})
 	case oMergeB4:
 		s.Merge(map[string]any{"b": 4})
+	case oMergeBig:
+		m := map[string]any{"b": 3}
+		for i := 0; i < 130; i++ {
+			m[fmt.Sprintf("f%03d", i)] = 0
+		}
+		s.Merge(m)
 	case oClear:
 		s.Clear()
 	case oGetIntA:
@@ -250,6 +260,7 @@ type linScn struct {
 	first   int   // first op of thread 0 (fixed: sharding)
 	prefill bool
 	core3   bool // restricted alphabet for 3 threads
+	big     bool // alphabet around the big merge (no Len/Keys/Clear: the model only tracks keys a and b)
 	filter  bool // quick: require >= 1 mutator and >= 1 reader in the program
 	bound   int
 }
@@ -264,6 +275,11 @@ func (sc linScn) scenario() Scenario {
 	}
 	if sc.core3 {
 		alphabet = core3Ops
+	}
+	if sc.big {
+		alphabet = []int{oSetA1, oSetA2, oSetB2, oGetA, oGetB, oDelA, oMergeBig, oMergeB4}
+	} else if !sc.core3 {
+		alphabet = alphabet[:oMergeBig] // the big merge has its own scenarios
 	}
 	body := func() {
 		label = "skipped"
@@ -360,14 +376,20 @@ func (sc linScn) scenario() Scenario {
 		pr = append(pr, x.Races...)
 		return label, pr
 	}
-	name := fmt.Sprintf("linearizable threads=%v first=%s prefill=%v core-alphabet=%v", sc.lens, storeOpNames[sc.first], sc.prefill, sc.core3)
+	name := fmt.Sprintf("linearizable threads=%v first=%s prefill=%v core-alphabet=%v big-merge=%v", sc.lens, storeOpNames[sc.first], sc.prefill, sc.core3, sc.big)
 	return Scenario{Name: name + boundName(sc.bound), Bound: sc.bound, Body: body, Check: check, NoMerge: false}
 }
 
 func genC13(tier string) []Scenario {
 	var out []Scenario
 	th := tier == "thorough"
-	for first := 0; first < numStoreOps; first++ {
+	// a merge large enough for any batched path, against concurrent writers of existing keys
+	for _, prefill := range []bool{true, false} {
+		out = append(out, linScn{lens: []int{1, 1}, first: oMergeBig, prefill: prefill, big: true, bound: unbounded}.scenario())
+		out = append(out, linScn{lens: []int{1, 2}, first: oMergeBig, prefill: prefill, big: true, bound: unbounded}.scenario())
+		out = append(out, linScn{lens: []int{2, 1}, first: oMergeBig, prefill: prefill, big: true, bound: unbounded}.scenario())
+	}
+	for first := 0; first < oMergeBig; first++ {
 		for _, prefill := range []bool{false, true} {
 			out = append(out, linScn{lens: []int{1, 1}, first: first, prefill: prefill, bound: unbounded}.scenario())
 			out = append(out, linScn{lens: []int{1, 2}, first: first, prefill: prefill, bound: unbounded}.scenario())
